@@ -1,5 +1,5 @@
 # Prototype spec v3 for alloc.rs: opaque sub-invariants + fact lemmas (design probe)
-LEMMAS = open('/tmp/probe/alloc/sem_lemmas.rs').read()
+LEMMAS = open('/tmp/probe/alloc/sem_lemmas.rs').read() + open('/tmp/probe/alloc/gen_sem.rs').read()
 
 OP_OK = open('/tmp/probe/alloc/op_ok.rs').read()
 
@@ -178,6 +178,93 @@ UF_SAME = "            forall|f: Set<int>| #[trigger] old(self).unbound_in(f) ==
 ST_SAME = "            forall|t: Set<int>| #[trigger] old(self).stale_only(t) ==> final(self).stale_only(t),\n"
 
 SPECS = {
+ 'SsaTape::len': ('r: usize', """
+        ensures r == self.tape@.len(),
+"""),
+
+ 'RegTape::new': ('r: Self', """
+        requires 3 <= N <= 255, ssa.tape@.len() < u32::MAX, ssa_wf(ssa.tape@, ssa.tape@.len() as int),
+        ensures
+            // the register tape computes exactly what the SSA tape computes, from ANY initial register/memory contents
+            forall|st: St, env: Env, inp: Seq<f32>|
+                (#[trigger] reg_run_rev(r.tape@, 0, r.tape@.len() as int, st, inp)).outs
+                    == (#[trigger] ssa_run_rev(ssa.tape@, 0, ssa.tape@.len() as int, Ss { env: env, outs: st.outs }, inp)).outs,
+"""),
+
+ 'new': ('r: Self', """
+        requires 3 <= N <= 255, size < u32::MAX
+        ensures r.wf(), r.allocations@ == Seq::new(size as nat, |i: int| UNASSIGNED), r.out.tape@.len() == 0,
+"""),
+ 'finalize': ('r: RegTape', """
+        ensures r.tape@ == old(self).out.tape@, r.slot_count == old(self).out.slot_count,
+"""),
+
+ 'op_reg': (None, """
+        requires old(self).wf(), ssa_kind(op) == 2, old(self).op_pre(op),
+        ensures final(self).op_post(old(self), op),
+"""),
+ 'op_reg_imm': (None, """
+        requires old(self).wf(), ssa_kind(op) == 3, old(self).op_pre(op),
+        ensures final(self).op_post(old(self), op),
+"""),
+ 'op_reg_reg': (None, """
+        requires old(self).wf(), ssa_kind(op) == 4, old(self).op_pre(op),
+        ensures final(self).op_post(old(self), op),
+"""),
+ 'op': (None, """
+        requires old(self).wf(), old(self).op_pre(op),
+        ensures final(self).op_post(old(self), op),
+"""),
+
+ 'op_copy_imm': (None, """
+        requires old(self).wf(), (out as int) < old(self).allocations@.len(), old(self).allocations@[out as int] != UNASSIGNED,
+        ensures final(self).wf(),
+            final(self).allocations@.len() == old(self).allocations@.len(),
+            final(self).allocations@[out as int] == UNASSIGNED,
+            final(self).out.tape@.len() >= old(self).out.tape@.len(),
+            forall|k: int| 0 <= k < old(self).out.tape@.len() ==> #[trigger] final(self).out.tape@[k] == old(self).out.tape@[k],
+            forall|s: int| 0 <= s < old(self).allocations@.len() && s != out ==>
+                (#[trigger] final(self).allocations@[s] == UNASSIGNED <==> old(self).allocations@[s] == UNASSIGNED),
+            simf(final(self).allocations@, old(self).allocations@, final(self).out.tape@, old(self).out.tape@.len() as int, final(self).out.tape@.len() as int, fe_def(out as int, c_imm(imm)), id_outs()),
+"""),
+ 'op_input': (None, """
+        requires old(self).wf(), (out as int) < old(self).allocations@.len(), old(self).allocations@[out as int] != UNASSIGNED,
+        ensures final(self).wf(),
+            final(self).allocations@.len() == old(self).allocations@.len(),
+            final(self).allocations@[out as int] == UNASSIGNED,
+            final(self).out.tape@.len() >= old(self).out.tape@.len(),
+            forall|k: int| 0 <= k < old(self).out.tape@.len() ==> #[trigger] final(self).out.tape@[k] == old(self).out.tape@[k],
+            forall|s: int| 0 <= s < old(self).allocations@.len() && s != out ==>
+                (#[trigger] final(self).allocations@[s] == UNASSIGNED <==> old(self).allocations@[s] == UNASSIGNED),
+            simf(final(self).allocations@, old(self).allocations@, final(self).out.tape@, old(self).out.tape@.len() as int, final(self).out.tape@.len() as int, fe_def(out as int, c_inp(i as int)), id_outs()),
+"""),
+
+ 'op_out_only': (None, """
+        requires old(self).wf(), (out as int) < old(self).allocations@.len(), old(self).allocations@[out as int] != UNASSIGNED,
+            forall|a: u8| op.requires((a,)),
+            forall|a: u8, r: RegOp, sl: int| #[trigger] op.ensures((a,), r) && (a as int) < N ==> #[trigger] op_ok(r, N as int, sl),
+        ensures final(self).wf(),
+            final(self).allocations@.len() == old(self).allocations@.len(),
+            final(self).allocations@[out as int] == UNASSIGNED,
+            final(self).out.tape@.len() >= old(self).out.tape@.len(),
+            forall|k: int| 0 <= k < old(self).out.tape@.len() ==> #[trigger] final(self).out.tape@[k] == old(self).out.tape@[k],
+            forall|s: int| 0 <= s < old(self).allocations@.len() && s != out ==>
+                (#[trigger] final(self).allocations@[s] == UNASSIGNED <==> old(self).allocations@[s] == UNASSIGNED),
+            forall|c: spec_fn(Seq<f32>) -> f32| #[trigger] shape_out(op, c) ==>
+                simf(final(self).allocations@, old(self).allocations@, final(self).out.tape@, old(self).out.tape@.len() as int, final(self).out.tape@.len() as int, fe_def(out as int, c), id_outs()),
+"""),
+ 'op_output': (None, """
+        requires old(self).wf(), (arg as int) < old(self).allocations@.len(),
+        ensures final(self).wf(),
+            final(self).allocations@.len() == old(self).allocations@.len(),
+            final(self).allocations@[arg as int] != UNASSIGNED,
+            final(self).out.tape@.len() >= old(self).out.tape@.len(),
+            forall|k: int| 0 <= k < old(self).out.tape@.len() ==> #[trigger] final(self).out.tape@[k] == old(self).out.tape@[k],
+            forall|s: int| 0 <= s < old(self).allocations@.len() && s != arg ==>
+                (#[trigger] final(self).allocations@[s] == UNASSIGNED <==> old(self).allocations@[s] == UNASSIGNED),
+            simf(final(self).allocations@, old(self).allocations@, final(self).out.tape@, old(self).out.tape@.len() as int, final(self).out.tape@.len() as int, id_env(), fo_output(i as int, arg as int)),
+"""),
+
  'op_reg_reg_k': (None, """
         requires old(self).wf(), (out as int) < old(self).allocations@.len(), (lhs as int) < old(self).allocations@.len(),
             (rhs as int) < old(self).allocations@.len(), out != lhs, out != rhs,
@@ -186,6 +273,9 @@ SPECS = {
             forall|a: u8, b: u8, c: u8, r: RegOp, sl: int| #[trigger] op.ensures((a, b, c), r) && (a as int) < N && (b as int) < N && (c as int) < N ==> #[trigger] op_ok(r, N as int, sl),
         ensures final(self).wf(),
             final(self).allocations@.len() == old(self).allocations@.len(),
+            final(self).allocations@[out as int] == UNASSIGNED, final(self).allocations@[lhs as int] != UNASSIGNED, final(self).allocations@[rhs as int] != UNASSIGNED,
+            forall|s: int| 0 <= s < old(self).allocations@.len() && s != out && s != lhs && s != rhs ==>
+                (#[trigger] final(self).allocations@[s] == UNASSIGNED <==> old(self).allocations@[s] == UNASSIGNED),
             final(self).out.tape@.len() >= old(self).out.tape@.len(),
             forall|k: int| 0 <= k < old(self).out.tape@.len() ==> #[trigger] final(self).out.tape@[k] == old(self).out.tape@[k],
             forall|g: spec_fn(f32, f32) -> f32| #[trigger] shape_bin(op, g) ==>
@@ -199,6 +289,9 @@ SPECS = {
             forall|a: u8, b: u8, r: RegOp, sl: int| #[trigger] op.ensures((a, b), r) && (a as int) < N && (b as int) < N ==> #[trigger] op_ok(r, N as int, sl),
         ensures final(self).wf(),
             final(self).allocations@.len() == old(self).allocations@.len(),
+            final(self).allocations@[out as int] == UNASSIGNED, final(self).allocations@[arg as int] != UNASSIGNED,
+            forall|s: int| 0 <= s < old(self).allocations@.len() && s != out && s != arg ==>
+                (#[trigger] final(self).allocations@[s] == UNASSIGNED <==> old(self).allocations@[s] == UNASSIGNED),
             final(self).out.tape@.len() >= old(self).out.tape@.len(),
             forall|k: int| 0 <= k < old(self).out.tape@.len() ==> #[trigger] final(self).out.tape@[k] == old(self).out.tape@[k],
             forall|f: spec_fn(f32) -> f32| #[trigger] shape_un(op, f) ==>
@@ -353,6 +446,212 @@ SPECS = {
 }
 
 PROOFS = {
+ "RegTape::new|let mut k_: usize = 0;": """
+        let ghost a0 = alloc.allocations@;
+        let ghost ops = ssa.tape@;
+        proof { lemma_sim_start(a0, alloc.out.tape@, ops); }""",
+
+ "op_reg|self.op_reg_fn(out, arg, f);#0": """
+                proof { assert(shape_un(f, f_un(3))); }""",
+ "op_reg|self.op_reg_fn(out, arg, f);#1": """
+                proof { assert(shape_un(f, f_un(5))); }""",
+ "op_reg|self.op_reg_fn(out, arg, f);#2": """
+                proof { assert(shape_un(f, f_un(7))); }""",
+ "op_reg|self.op_reg_fn(out, arg, f);#3": """
+                proof { assert(shape_un(f, f_un(9))); }""",
+ "op_reg|self.op_reg_fn(out, arg, f);#4": """
+                proof { assert(shape_un(f, f_un(11))); }""",
+ "op_reg|self.op_reg_fn(out, arg, f);#5": """
+                proof { assert(shape_un(f, f_un(13))); }""",
+ "op_reg|self.op_reg_fn(out, arg, f);#6": """
+                proof { assert(shape_un(f, f_un(15))); }""",
+ "op_reg|self.op_reg_fn(out, arg, f);#7": """
+                proof { assert(shape_un(f, f_un(17))); }""",
+ "op_reg|self.op_reg_fn(out, arg, f);#8": """
+                proof { assert(shape_un(f, f_un(19))); }""",
+ "op_reg|self.op_reg_fn(out, arg, f);#9": """
+                proof { assert(shape_un(f, f_un(21))); }""",
+ "op_reg|self.op_reg_fn(out, arg, f);#10": """
+                proof { assert(shape_un(f, f_un(23))); }""",
+ "op_reg|self.op_reg_fn(out, arg, f);#11": """
+                proof { assert(shape_un(f, f_un(25))); }""",
+ "op_reg|self.op_reg_fn(out, arg, f);#12": """
+                proof { assert(shape_un(f, f_un(27))); }""",
+ "op_reg|self.op_reg_fn(out, arg, f);#13": """
+                proof { assert(shape_un(f, f_un(29))); }""",
+ "op_reg|self.op_reg_fn(out, arg, f);#14": """
+                proof { assert(shape_un(f, f_un(31))); }""",
+ "op_reg|self.op_reg_fn(out, arg, f);#15": """
+                proof { assert(shape_un(f, f_un(33))); }""",
+ "op_reg|self.op_reg_fn(out, arg, f);#16": """
+                proof { assert(shape_un(f, f_un(35))); }""",
+ "op_reg|self.op_reg_fn(out, arg, f);#17": """
+                proof { assert(shape_un(f, f_id())); }""",
+ "op_reg|self.op_reg_fn(out, arg, f);#18": """
+                proof { assert(shape_un(f, f_un(37))); }""",
+ "op_reg_imm|self.op_reg_fn(out, arg, f);#0": """
+                proof { assert(shape_un(f, f_ri(38, imm))); }""",
+ "op_reg_imm|self.op_reg_fn(out, arg, f);#1": """
+                proof { assert(shape_un(f, f_ri(44, imm))); }""",
+ "op_reg_imm|self.op_reg_fn(out, arg, f);#2": """
+                proof { assert(shape_un(f, f_ir(44, imm))); }""",
+ "op_reg_imm|self.op_reg_fn(out, arg, f);#3": """
+                proof { assert(shape_un(f, f_ri(40, imm))); }""",
+ "op_reg_imm|self.op_reg_fn(out, arg, f);#4": """
+                proof { assert(shape_un(f, f_ri(42, imm))); }""",
+ "op_reg_imm|self.op_reg_fn(out, arg, f);#5": """
+                proof { assert(shape_un(f, f_ir(42, imm))); }""",
+ "op_reg_imm|self.op_reg_fn(out, arg, f);#6": """
+                proof { assert(shape_un(f, f_ri(28, imm))); }""",
+ "op_reg_imm|self.op_reg_fn(out, arg, f);#7": """
+                proof { assert(shape_un(f, f_ir(28, imm))); }""",
+ "op_reg_imm|self.op_reg_fn(out, arg, f);#8": """
+                proof { assert(shape_un(f, f_ri(52, imm))); }""",
+ "op_reg_imm|self.op_reg_fn(out, arg, f);#9": """
+                proof { assert(shape_un(f, f_ri(54, imm))); }""",
+ "op_reg_imm|self.op_reg_fn(out, arg, f);#10": """
+                proof { assert(shape_un(f, f_ri(48, imm))); }""",
+ "op_reg_imm|self.op_reg_fn(out, arg, f);#11": """
+                proof { assert(shape_un(f, f_ir(48, imm))); }""",
+ "op_reg_imm|self.op_reg_fn(out, arg, f);#12": """
+                proof { assert(shape_un(f, f_ri(46, imm))); }""",
+ "op_reg_imm|self.op_reg_fn(out, arg, f);#13": """
+                proof { assert(shape_un(f, f_ir(46, imm))); }""",
+ "op_reg_imm|self.op_reg_fn(out, arg, f);#14": """
+                proof { assert(shape_un(f, f_ri(50, imm))); }""",
+ "op_reg_imm|self.op_reg_fn(out, arg, f);#15": """
+                proof { assert(shape_un(f, f_ir(50, imm))); }""",
+ "op_reg_imm|self.op_reg_fn(out, arg, f);#16": """
+                proof { assert(shape_un(f, f_ri(56, imm))); }""",
+ "op_reg_imm|self.op_reg_fn(out, arg, f);#17": """
+                proof { assert(shape_un(f, f_ri(58, imm))); }""",
+ "op_reg_reg|self.op_reg_reg_k(out, lhs, rhs, f);#0": """
+                proof { assert(shape_bin(f, g_bin(38))); }""",
+ "op_reg_reg|self.op_reg_reg_k(out, lhs, rhs, f);#1": """
+                proof { assert(shape_bin(f, g_bin(44))); }""",
+ "op_reg_reg|self.op_reg_reg_k(out, lhs, rhs, f);#2": """
+                proof { assert(shape_bin(f, g_bin(40))); }""",
+ "op_reg_reg|self.op_reg_reg_k(out, lhs, rhs, f);#3": """
+                proof { assert(shape_bin(f, g_bin(42))); }""",
+ "op_reg_reg|self.op_reg_reg_k(out, lhs, rhs, f);#4": """
+                proof { assert(shape_bin(f, g_bin(28))); }""",
+ "op_reg_reg|self.op_reg_reg_k(out, lhs, rhs, f);#5": """
+                proof { assert(shape_bin(f, g_bin(52))); }""",
+ "op_reg_reg|self.op_reg_reg_k(out, lhs, rhs, f);#6": """
+                proof { assert(shape_bin(f, g_bin(54))); }""",
+ "op_reg_reg|self.op_reg_reg_k(out, lhs, rhs, f);#7": """
+                proof { assert(shape_bin(f, g_bin(48))); }""",
+ "op_reg_reg|self.op_reg_reg_k(out, lhs, rhs, f);#8": """
+                proof { assert(shape_bin(f, g_bin(46))); }""",
+ "op_reg_reg|self.op_reg_reg_k(out, lhs, rhs, f);#9": """
+                proof { assert(shape_bin(f, g_bin(56))); }""",
+ "op_reg_reg|self.op_reg_reg_k(out, lhs, rhs, f);#10": """
+                proof { assert(shape_bin(f, g_bin(58))); }""",
+ "op_reg_reg|self.op_reg_reg_k(out, lhs, rhs, f);#11": """
+                proof { assert(shape_bin(f, g_bin(50))); }""",
+
+ "op_output|Allocation::Register(r_y) => {": """
+                let ghost s1 = *self;
+                proof { s1.lemma_bound_reg(arg as int); }""",
+ "op_output|self.out.push(RegOp::Output(r_y, i));": """
+                proof {
+                    let o0 = *old(self);
+                    let lo = o0.out.tape@.len() as int;
+                    Self::lemma_push_op(s1, *self, RegOp::Output(r_y, i));
+                    assert(self.out.tape@[lo] == RegOp::Output(r_y, i));
+                    lemma_step_output(self.allocations@, self.out.tape@, lo, r_y, i, arg as int);
+                }""",
+
+ "op_out_only|let r_x = self.get_out_reg(out);": """
+        let ghost s1 = *self;
+        proof { s1.lemma_reg_unique(out as int); }""",
+ "op_out_only|self.out.push(op(r_x));": """
+        let ghost s2 = *self;
+        proof { Self::lemma_push_op(s1, s2, s2.out.tape@.last()); }""",
+ "op_out_only|self.release_reg(r_x);": """
+        proof {
+            let o0 = *old(self);
+            let e: Set<int> = Set::empty();
+            let lo = o0.out.tape@.len() as int;
+            let hi = self.out.tape@.len() as int;
+            let mid = s1.out.tape@.len() as int;
+            let rop = self.out.tape@[mid];
+            assert(op.ensures((r_x,), rop));
+            assert forall|c: spec_fn(Seq<f32>) -> f32| #[trigger] shape_out(op, c) implies
+                simf(self.allocations@, o0.allocations@, self.out.tape@, lo, hi, fe_def(out as int, c), id_outs()) by {
+                lemma_step_def(s1.allocations@, self.out.tape@, mid, r_x, out as int, c);
+                lemma_sim_ext(s1.allocations@, o0.allocations@, s1.out.tape@, self.out.tape@, lo, mid, id_env(), id_outs());
+                lemma_sim_then(self.allocations@, s1.allocations@, o0.allocations@, self.out.tape@, lo, mid, hi, fe_def(out as int, c), id_outs());
+            }
+        }""",
+ "op_copy_imm|self.op_out_only(out, f);": """
+        proof { assert(shape_out(f, c_imm(imm))); }""",
+ "op_input|self.op_out_only(out, f);": """
+        proof { assert(shape_out(f, c_inp(i as int))); }""",
+ "op_output|Allocation::Memory(m_y) => {": """
+                let ghost s1 = *self;
+                proof { s1.lemma_oldest_bound(Set::empty()); }""",
+ "op_output|let r_a = self.get_register();#0": """
+                let ghost s2 = *self;
+                proof {
+                    assert(s2.allocations@[arg as int] == m_y);
+                    s2.lemma_mem_unique(arg as int);
+                    s2.lemma_not_stale(arg as int, Set::empty());
+                }""",
+ "op_output|self.push_store(r_a, m_y);": """
+                let ghost s3 = *self;""",
+ "op_output|self.out.push(RegOp::Output(r_a, i));#0": """
+                let ghost s4 = *self;
+                proof { Self::lemma_push_op(s3, s4, RegOp::Output(r_a, i)); }""",
+ "op_output|self.bind_register(arg, r_a);#0": """
+                proof {
+                    let o0 = *old(self);
+                    let e: Set<int> = Set::empty();
+                    let lo = o0.out.tape@.len() as int;
+                    let hi = self.out.tape@.len() as int;
+                    assert(s3.stale_only(e.insert(arg as int)));
+                    assert(e.insert(arg as int).remove(arg as int) =~= e);
+                    assert(s2.unbound_in(e.insert(r_a as int)));
+                    assert(e.insert(r_a as int).remove(r_a as int) =~= e);
+                    let mid = s2.out.tape@.len() as int;
+                    assert(self.out.tape@[mid] == RegOp::Store(r_a, m_y));
+                    assert(self.out.tape@[mid + 1] == RegOp::Output(r_a, i));
+                    let a2 = self.allocations@;
+                    lemma_step_output(a2, self.out.tape@, mid + 1, r_a, i, arg as int);
+                    lemma_step_store(s2.allocations@, self.out.tape@, mid, r_a, m_y, arg as int, N as int);
+                    lemma_sim_ext(s2.allocations@, o0.allocations@, s2.out.tape@, self.out.tape@, lo, mid, id_env(), id_outs());
+                    lemma_sim_then(a2, s2.allocations@, o0.allocations@, self.out.tape@, lo, mid, mid + 1, id_env(), id_outs());
+                    lemma_sim_then(a2, a2, o0.allocations@, self.out.tape@, lo, mid + 1, hi, id_env(), fo_output(i as int, arg as int));
+                }""",
+ "op_output|Allocation::Unassigned => {": """
+                let ghost s1 = *self;
+                proof { s1.lemma_oldest_bound(Set::empty()); }""",
+ "op_output|let r_a = self.get_register();#1": """
+                let ghost s2 = *self;
+                proof { assert(s2.allocations@[arg as int] == UNASSIGNED); }""",
+ "op_output|self.out.push(RegOp::Output(r_a, i));#1": """
+                let ghost s4 = *self;
+                proof { Self::lemma_push_op(s2, s4, RegOp::Output(r_a, i)); }""",
+ "op_output|self.bind_register(arg, r_a);#1": """
+                proof {
+                    let o0 = *old(self);
+                    let e: Set<int> = Set::empty();
+                    let lo = o0.out.tape@.len() as int;
+                    let hi = self.out.tape@.len() as int;
+                    assert(e.remove(arg as int) =~= e);
+                    assert(s2.unbound_in(e.insert(r_a as int)));
+                    assert(e.insert(r_a as int).remove(r_a as int) =~= e);
+                    let mid = s2.out.tape@.len() as int;
+                    assert(self.out.tape@[mid] == RegOp::Output(r_a, i));
+                    let a2 = self.allocations@;
+                    lemma_step_output(a2, self.out.tape@, mid, r_a, i, arg as int);
+                    lemma_sim_drop(a2, arg as int, self.out.tape@, mid);
+                    assert(a2.update(arg as int, UNASSIGNED) =~= s2.allocations@);
+                    lemma_sim_ext(s2.allocations@, o0.allocations@, s2.out.tape@, self.out.tape@, lo, mid, id_env(), id_outs());
+                    lemma_sim_then(a2, s2.allocations@, o0.allocations@, self.out.tape@, lo, mid, mid, id_env(), id_outs());
+                    lemma_sim_then(a2, a2, o0.allocations@, self.out.tape@, lo, mid, hi, id_env(), fo_output(i as int, arg as int));
+                }""",
+
  "op_reg_reg_k|(Allocation::Memory(m_y), Allocation::Memory(m_z)) => {": """
                 let ghost s3 = *self;
                 proof {
@@ -1165,3 +1464,53 @@ ARMS = {
  'J': '(Allocation::Unassigned, Allocation::Memory(m_z)) => {',
  'K': '(Allocation::Memory(m_y), Allocation::Unassigned) => {',
 }
+
+REPLACE = [
+ ("            Allocation::Register(r_y) => self.out.push(RegOp::Output(r_y, i)),",
+  "            Allocation::Register(r_y) => {\n                self.out.push(RegOp::Output(r_y, i));\n            }"),
+]
+
+LOOPS = {
+ 'RegTape::new|while k_ < ssa.tape.len()': """
+            invariant
+                3 <= N <= 255, ops == ssa.tape@, ops.len() < u32::MAX, ssa_wf(ops, ops.len() as int),
+                0 <= k_ <= ops.len(),
+                alloc.wf(), alloc.allocations@.len() == ops.len(), a0.len() == ops.len(),
+                forall|s: int| 0 <= s < a0.len() ==> #[trigger] a0[s] == UNASSIGNED,
+                forall|s: int| 0 <= s < ops.len() ==> ((#[trigger] alloc.allocations@[s] != UNASSIGNED) == live(ops, k_ as int).contains(s)),
+                simf(alloc.allocations@, a0, alloc.out.tape@, 0, alloc.out.tape@.len() as int, run_fe(ops, k_ as int), run_fo(ops, k_ as int)),
+            decreases ops.len() - k_,
+""",
+}
+PROOFS.update({
+ 'RegTape::new|let op = ssa.tape[k_];': """
+            let ghost pre = alloc;
+            proof {
+                assert(ops[k_ as int] == op);
+            }""",
+ 'RegTape::new|alloc.op(op);': """
+            proof {
+                let mid = pre.out.tape@.len() as int;
+                let hi = alloc.out.tape@.len() as int;
+                lemma_sim_ext(pre.allocations@, a0, pre.out.tape@, alloc.out.tape@, 0, mid, run_fe(ops, k_ as int), run_fo(ops, k_ as int));
+                lemma_sim_extend(alloc.allocations@, pre.allocations@, a0, alloc.out.tape@, mid, hi, ops, k_ as int);
+                assert forall|s: int| 0 <= s < ops.len() implies ((#[trigger] alloc.allocations@[s] != UNASSIGNED) == live(ops, k_ as int + 1).contains(s)) by {
+                    lemma_live_step(ops, k_ as int, s);
+                }
+            }""",
+ 'RegTape::new|$TAILCALL': """
+        proof {
+            let n = ops.len() as int;
+            let tape = alloc.out.tape@;
+            reveal(simf);
+            assert forall|st: St, env: Env, inp: Seq<f32>|
+                (#[trigger] reg_run_rev(tape, 0, tape.len() as int, st, inp)).outs
+                    == (#[trigger] ssa_run_rev(ops, 0, n, Ss { env: env, outs: st.outs }, inp)).outs by {
+                assert(agree(alloc.allocations@, st.slots, env)) by {
+                    assert forall|s: int| 0 <= s < alloc.allocations@.len() && #[trigger] alloc.allocations@[s] != UNASSIGNED implies st.slots[alloc.allocations@[s] as int] == env[s] by {
+                        assert(live(ops, n).contains(s));
+                    }
+                }
+            }
+        }""",
+})
